@@ -274,6 +274,10 @@ func validateFans(config *Configuration) error {
 		}
 
 		if fanConfig.ControlAlgorithm != nil {
+			if fanConfig.ControlAlgorithm.Direct == nil && fanConfig.ControlAlgorithm.Pid == nil {
+				return fmt.Errorf("fan %s: controlAlgorithm must be one of: direct | pid", fanConfig.ID)
+			}
+
 			if fanConfig.ControlAlgorithm.Direct != nil {
 				maxPwmChangePerCycle := fanConfig.ControlAlgorithm.Direct.MaxPwmChangePerCycle
 				if maxPwmChangePerCycle != nil && *maxPwmChangePerCycle <= 0 {
